@@ -9,6 +9,7 @@ RULE = ('wall frames: random orthonormal (normal, up) pairs, the 24 axis frames 
         'lookups: real get_scattering_data_source / get_scattering_data_receiver_index / bake index map / _add_directional '
         'on real rooms vs the model (near-ties between samples set aside and counted) and vs a brute-force nearest-angle '
         'search in the wall frame; non-trivial = multi-direction sampling')
+RULE = RULE + '; direction sets with non-unit radii and a separate incoming sampling; object-level receiver-slot oracle on a long histogram'
 ASSUMPTIONS = ['pyfar/scipy Orientations & Euler-angle rotation are library code: tied only by this correspondence',
                'nearest sample = first minimum of the squared chord distance (numpy argmin)']
 EXPLANATION = 'wall frame is a rotation with R e_z = n, R e_x = u (orthonormal n,u), scale-free in n and u; for unit vectors the nearest sample (chord) is the sample of maximal cosine = minimal angle; the four lookups apply that argmin to the geometric direction in the wall of the looked-up patch.'
